@@ -134,6 +134,15 @@ func ruleEventsDecorator(c *core.Ctx) {
 				}
 				if cf := astx.Callee(info, v); cf != nil && cf.Name() == "handleEvent" && strings.HasSuffix(astx.SelectorPath(recvExpr(v)), ".parent") {
 					delegated++
+					// the parent runs the closure at once when it is not transactional: delegate only
+					// to a parent that is itself inside the transaction
+					okDel := false
+					for _, f := range astx.FactsAt(info, d.Decl.Body, v.Pos()) {
+						if f.Positive && astx.SelectorPath(f.Cond) == "c.parent.hasTx" {
+							okDel = true
+						}
+					}
+					c.Check(okDel, "EVT/handle-event", key+":delegation-guard", pos(c, v), "delegates to the parent only under c.parent.hasTx", "handleEvent hands the closure to its parent without checking that the parent is inside the transaction: a non-transactional parent runs it immediately, so the event of a write inside a transaction is published before the commit and survives a rollback")
 				}
 			case *ast.AssignStmt:
 				if len(v.Lhs) == 1 && strings.HasSuffix(astx.SelectorPath(v.Lhs[0]), ".atCommit") {
